@@ -27,6 +27,8 @@ SInit ==
     lastFork |-> 0,
     spawning |-> [t \in 0..63 |-> 0],   \* interest being registered by register_spawn in thread t
     term |-> {},              \* pids terminated, not yet reaped
+    termOwed |-> {},          \* those of them that the library still owes a wait4(): terminated while
+                              \* a wait interest was registered, and interests stayed registered since
     reapedPids |-> {},        \* pids whose termination was reaped (until reused)
     alive |-> {},             \* pids forked and not yet terminated
     sinceReap |-> FALSE,
@@ -98,7 +100,7 @@ Reap(m, e) ==
                                             THEN [@[o] EXCEPT !.pend = Append(@, e.st), !.dead = (e.dead = 1)]
                                             ELSE @[o]],
                       !.sinceReap = TRUE, !.reapNoInt = (tgt = {} /\ e.dead = 1)]
-  IN IF e.dead = 1 THEN [m1 EXCEPT !.term = @ \ {e.pid}, !.reapedPids = @ \cup {e.pid}] ELSE m1
+  IN IF e.dead = 1 THEN [m1 EXCEPT !.term = @ \ {e.pid}, !.termOwed = @ \ {e.pid}, !.reapedPids = @ \cup {e.pid}] ELSE m1
 
 WaitCb(m, e) ==
   LET o == e.o  r == m.wt[o] IN
@@ -132,7 +134,11 @@ SApi(m, e) ==
          (* the registration took effect at the fork (under the library's lock) *)
          IF e.r = 0 THEN [m EXCEPT !.spawning[e.t] = 0]
          ELSE [m EXCEPT !.spawning[e.t] = 0, !.wt[e.o].reg = FALSE]
-    [] e.op = "wait_unreg" -> [m EXCEPT !.wt[e.o].reg = FALSE, !.wt[e.o].pend = <<>>]
+    [] e.op = "wait_unreg" ->
+         LET m1 == [m EXCEPT !.wt[e.o].reg = FALSE, !.wt[e.o].pend = <<>>] IN
+         (* with the last interest the SIGCHLD handling goes away: what was not reaped
+            by then is no longer the library's to reap *)
+         IF \E o \in Obj : m1.wt[o].reg THEN m1 ELSE [m1 EXCEPT !.termOwed = {}]
     [] e.op = "popen" /\ e.r = 0 -> [m EXCEPT !.pop[e.o] = [PopInit EXCEPT !.open = TRUE, !.pid = m.lastFork]]
     [] e.op = "popen_close" -> [m EXCEPT !.pop[e.o].open = FALSE, !.pop[e.o].closed = TRUE]
     [] e.op = "quit" -> [m EXCEPT !.quit = TRUE]
@@ -143,7 +149,7 @@ SQuiesce(m) ==
       grpReg == {g \in m.groups : \E o \in g[3] : m.sig[o].reg}
       m1 == Chk(m, \E o \in Obj : m.sig[o].reg, owedReg = {} /\ grpReg = {}, "C10:lost")
       m2 == Chk(m1, \E o \in Obj : m1.wt[o].reg, \A o \in Obj : m1.wt[o].reg => m1.wt[o].pend = <<>>, "C11:lost")
-  IN Chk(m2, \E o \in Obj : m2.wt[o].reg, m2.term = {}, "C11:zombie")
+  IN Chk(m2, \E o \in Obj : m2.wt[o].reg, m2.termOwed = {}, "C11:zombie")
 
 (* nothing of these subsystems is left that could keep a loop alive *)
 AllReleased(m) ==
@@ -172,7 +178,11 @@ SStep(m, e) ==
              o == m.spawning[e.t]
          IN IF o # 0 THEN [m1 EXCEPT !.wt[o] = [WaitInit EXCEPT !.reg = TRUE, !.pid = e.pid, !.owner = e.t]]
             ELSE m1
-    [] e.e = "Child" -> IF e.what \in {0, 1} THEN [m EXCEPT !.term = @ \cup {e.pid}, !.alive = @ \ {e.pid}] ELSE m
+    [] e.e = "Child" ->
+         IF e.what \in {0, 1}
+         THEN [m EXCEPT !.term = @ \cup {e.pid}, !.alive = @ \ {e.pid},
+                        !.termOwed = IF \E o \in Obj : m.wt[o].reg THEN @ \cup {e.pid} ELSE @]
+         ELSE m
     [] e.e = "Reap" -> Reap(m, e)
     [] e.e = "Kill" -> KillStep(m, e)
     [] e.e = "CbB" -> IF e.k = "sig" THEN SigCb(m, e) ELSE IF e.k = "wait" THEN WaitCb(m, e)
